@@ -236,6 +236,10 @@ pub fn run(args: &Args) -> i32 {
     for (i, &sv) in [3usize, 8].iter().enumerate() {
         specs.push(NetSpec { servers: sv, clients: 1, plan: "private".into(), join: "sequential".into(), dead_bootstrap: [22, 35][i], seed: seed ^ (900 + i as u64) });
     }
+    // bootstrap lists whose first entries are not addresses at all
+    for (i, &sv) in [2usize, 5].iter().enumerate() {
+        specs.push(NetSpec { servers: sv, clients: 1, plan: "private".into(), join: "sequential".into(), dead_bootstrap: [100, 102][i], seed: seed ^ (950 + i as u64) });
+    }
     // larger networks: connectivity verdict only
     let big: Vec<usize> = if thorough { vec![40, 60, 100, 200, 300] } else { vec![60] };
     let only = args.get("only").and_then(|x| x.parse::<u64>().ok());
